@@ -16,14 +16,14 @@ TRUSTED = [
     "correspondence on EVERY truncation offset and every single particle-line deletion/duplication of the generated files",
     "tables regenerated from Particle.py; oracles float()/int()/PDGID as in C01",
 ]
-ASSUMPTIONS = ["cuts inside an event-header/footer comment line and the whole JETSCAPE family have no theorem: model correspondence (all byte offsets) + property oracle only",
+ASSUMPTIONS = ["cuts inside an Oscar event-header/footer comment line and inside the JETSCAPE trailer after the word sigmaGen have no theorem: model correspondence (all byte offsets) + property oracle only",
                "offsets before the first newline are excluded (the loader's backward seek fails there: an error)"]
 LEVEL_TEXT = ("Theorems (Coq, Oscar family, any well-formed base file): a cut at an event boundary loads exactly the first m complete events with "
               "matching counts; a cut right after an event header, any cut whose last line is (a prefix of) a particle line or of the format line "
               "(with or without final newline), any file with fewer particle lines than declared (lost line) and any file with one more than declared "
-              "(duplicated line) fail to load. The remaining truncation points (inside a comment line) and the JETSCAPE reader are decided by running the "
+              "(duplicated line) fail to load; JETSCAPE: a last line without sigmaGen (every cut before that word), a lost and a duplicated particle line fail to load. The remaining truncation points (inside a comment line / inside the trailer) are decided by running the "
               "loader models and the real readers side by side on every byte offset of generated files, plus the error-or-complete-prefix oracle.")
-LEVEL_NOTE = ("Partial proof: named C07_trunc_partial_*; cuts inside '#' lines and JETSCAPE are exploration-level (exhaustive offsets per generated file). "
+LEVEL_NOTE = ("Partial proof: named C07_trunc_partial_*; cuts inside '#' lines are exploration-level (exhaustive offsets per generated file). "
               "Hand-written loader models at token level; a partial last token is an arbitrary string.")
 TECHNIQUE = "Coq proof over the loader model with declared-vs-present line counts (induction over events); exhaustive byte-offset correspondence for the rest"
 
